@@ -67,6 +67,21 @@ pub fn families(rng: &mut Rng, thorough: bool) -> Vec<(String, Vec<u64>, Vec<u64
                 out.push((format!("top digit differs {}", la), a, c));
             }
         }
+        // just above / just below a power of 2^64: the difference (and the quotient) is far shorter than both operands
+        for (s, t) in [(5u64, 3u64), (0, 1), (1, u64::MAX), (u64::MAX, 1), (0, 0)] {
+            let mut a = vec![0u64; la + 1];
+            a[la] = 1;
+            a[0] = s;
+            let mut p = vec![0u32; 2 * la + 1];
+            p[2 * la] = 1;
+            let b = from_n(&hint::sub(&p, &hint::from_u64s(&[t.max(1)])));
+            out.push((format!("near pow {} +{} -{}", la, s, t), a.clone(), b.clone()));
+            if la >= 2 {
+                // ... with a run of zero digits in the middle of the smaller one: 2^(64 la) - 2^64 + t
+                let b2 = from_n(&hint::add(&hint::sub(&p, &hint::from_u64s(&[0, 1])), &hint::from_u64s(&[t])));
+                out.push((format!("near pow {} +{} -2^64+{}", la, s, t), a, b2));
+            }
+        }
         out.push((format!("zero rhs {}", la), digits(rng, la, Pat::Random), vec![]));
         out.push((format!("zero lhs {}", la), vec![], digits(rng, la, Pat::Ones)));
     }
